@@ -62,6 +62,35 @@ CLAIMS.update({
             "Coq proof (state machines vs grammar, unbounded) + correspondence incl. exhaustive short strings + end-to-end event comparison", "4 C15"),
 })
 
+PART = " Theorem coverage is PARTIAL (see the *_partial theorems and the header of coq/Properties/%s.v): the remainder of the property is decided by the oracle on the implementation and the model/implementation correspondence, which are differential testing on generated inputs, not proof."
+CLAIMS.update({
+    "C01": ("proof", "Specification: Spec/Value.v + Spec/Message.v (reference reading of the pinned layout tables, extracted and used as the oracle). Proved: strict decode = specified events + Accepted for every primitive root type (all widths, all inputs); a concrete command instance by computation. Not yet proved for structures/TPM2B/unions/commands/responses/streams: there the oracle compares the implementation with the extracted spec_events on table-directed well-formed encodings of every type, union arm, command code (0-3 sessions, encrypted first parameter, failed responses) and the corpus." + PART % "C01",
+            "Coq specification + partial proof; extracted specification as oracle; model/implementation correspondence", "4 C01"),
+    "C03": ("proof", "Proved at operation level for all states: Exceeded is raised for the outermost listed live region the field would cross, names that region (path, limit, counted bytes), the offending field and the excess, after skipping exactly the rest of the region; Anticipated is raised for a live enclosing region when a size is read that cannot fit; a region closes normally only when exactly filled, else Subceeded names it. Not yet proved: composition over whole types (accepted => all sizes exact; nothing decidable earlier). Oracle: accepted => the extracted specification parses the input with exact sizes; the arithmetic of every size error recomputed from the emitted events; correspondence on every size field perturbed." + PART % "C03",
+            "Coq proof (operation-level error anatomy) + region-arithmetic oracle + correspondence on fault-enumerated inputs", "4 C03"),
+    "C04": ("proof", "Proved: a strict primitive decode raises the value error exactly for an out-of-range value (valid <-> membership in the declared set, C16), after reading exactly the field's bytes, naming path, declared type and integer, without emitting the offending event. Not yet proved: 'the first such field in wire order, all earlier events emitted' for composite types. Oracle: implementation vs extracted spec_value_error (first out-of-range leaf, events before it, bytes remaining) at the pinned tables on every constrained leaf of generated messages." + PART % "C04",
+            "Coq proof (field level) + extracted specification as oracle + correspondence", "4 C04"),
+    "C05": ("proof", "Proved for all inputs/roots/tables: Depleted <=> the decoder is suspended asking for a byte with the whole input handed over and nothing left; Superfluous carries exactly the non-empty unread rest (input = consumed ++ rest); a suspended decoder has used its input up (both modes). With C10_prefix_stable the events before a depleted error are a prefix of the full decode's events. That they are exactly the complete fields needs C01 (partial). Oracle: every/boundary cut points and suffixes of generated messages and streams, command code carried, clean stream ends only at message boundaries." + PART % "C05",
+            "Coq proof (pump characterisation, accounting, incrementality) + cut/suffix enumeration oracle + correspondence", "4 C05"),
+    "C06": ("proof", "Termination is by construction (total Gallina function, loop exhaustion is the distinguished OFuel outcome). Proved: never pulls more than the input holds; the pump adds no failure mode (an undocumented outcome can only come from an enumerated internal site of the processor). Not yet proved: unreachability of those sites in strict mode for coherent tables. Oracle: exception classes escaping the implementation on random, mutated and mistyped inputs over all roots; correspondence compares outcome classes incl. crashes." + PART % "C06",
+            "Coq proof (partial) + crash oracle on arbitrary inputs + correspondence", "4 C06"),
+    "C07": ("proof", "Proved for every decoder function, all tables, all states and inputs: a strict run that does not raise is reproduced exactly by warn mode; a strict run raising e after trace tr corresponds to a warn run that continues tr with (only for a value error) the offending event and then the warning wrapping the same e, or raises e itself after the same trace; through the pump: strict accepts => warn emits identical events and no warning; strict raises e => warn warns e after the same events; warn clean => strict accepts. Oracle: both modes on the same bytes (well-formed, fault-enumerated, cuts, random).",
+            "Coq proof (relational structural induction strict vs warn, lifted through the pump) + correspondence + two-mode oracle", "4 C07"),
+    "C08": ("proof", "Proved: warn-mode decodes that complete with value warnings only are tiled by their events (C02 with abort=false); an overrun skips exactly the rest of the violated region before it is reported; first-problem agreement (C07). Not proved: that warn mode never aborts and that after any recovered problem every byte is shown, skipped or listed (false at the pinned commit, repaired by fix: commits). Oracle: no escaping exception except the two allowed value errors; tiling recomputed from events and warnings (resume at declared end, surplus exact); value-only inputs = lenient specification + one warning directly after each offending event." + PART % "C08",
+            "Coq proof (partial) + tiling oracle + correspondence in warn mode on single/multiple faults", "4 C08"),
+    "C09": ("proof", "Proved: a decoded stream's events split at the message roots are exactly the per-message event lists, one object per message in order, command / response-built-with-that-command's-code pairing. Not yet proved: stream events = concatenation of the individual decodes (needs C01 for messages). Oracle: stream vs individual decodes on the implementation (Python == on events incl. type identity, and on objects) for generated sequences with failed responses, sessions and encryption mixed." + PART % "C09",
+            "Coq proof (object side) + stream-vs-individual oracle + correspondence", "4 C09"),
+    "C10": ("proof", "Proved for every decoder function, both modes, all tables, all states: appending input leaves every run that did not stop for lack of input unchanged and extends the others (the decoder learns about its input only by asking for the next byte); hence for ALL inputs the events of a prefix are a prefix of the events of the whole input; every event is reported with min(len, bytes received + 1) bytes pulled. Independence of the iterable kind is not a theorem: correspondence with seven source kinds. Oracle: look-ahead, prefix stability, complete fields at random and boundary cuts.",
+            "Coq proof (incrementality by structural induction, lifted through the pump) + cut oracle + source-kind runs", "4 C10"),
+    "C11": ("other", "events_to_obj / obj_to_events are not modelled. Decided on the implementation: by-product object == object rebuilt from events, both turn back into exactly the decoded events (paths, declared types, values and value classes), re-encoding gives the input, for generated well-formed encodings of every type, command and response incl. empty TPM2B payloads, null union arms, encrypted parameters; the by-product object is tied to the Coq model by correspondence. Proved (field level only): the by-product value of a primitive field is the value of its event.",
+            "differential conversions on the implementation + model correspondence on the by-product object; one field-level Coq lemma", "4 C11"),
+    "C13": CLAIMS["C13"],
+    "C14": ("proof", "Proved for every event list (either mode) on which the printer does not fail (byte-buffer elements are primitive events): the hex column concatenated over all rows is the concatenation of the bytes of the primitive events in order; what the row of a primitive shows (type, indentation = path depth, name, bytes, text form). Not yet proved: the row/event bijection and that decoder output has the required shape. Oracle: rows parsed from the real pretty output against the events (one row per structure/primitive/warning event in order, one per byte buffer, hex column), events printer one line per event, neither raises; correspondence compares every row incl. bit rows and value text." + PART % "C14",
+            "Coq proof (printer as list function) + row oracle + correspondence", "4 C14"),
+    "C19": ("other", "Only the refusal decision of `convert` is a theorem (Model/Cli.v: refused exactly for an unknown type, a response without/with an unknown command). Everything else - argparse, files, stdout, exit status, `type`, `example` - is decided by differential runs of `python -m tpmstream` against in-process library calls on the same files (every input/output format, malformed input, --type/--command).",
+            "differential CLI-vs-library runs; Coq lemma for the refusal logic", "4 C19"),
+})
+
 PENDING_REASON = "check not built yet in this revision (work in progress; the property is applicable and planned, see DESIGN.md section 4)"
 
 
